@@ -52,6 +52,9 @@ extern long sim_sem_waits, sim_sem_posts;
 extern int  sim_sem_max_value;                       /* highest value any semaphore reached */
 extern int  sim_sem_violations;                      /* posts that raised a binary semaphore above its initial value */
 extern char sim_sem_violation_where[256];
+extern int  sim_owner_violations;                    /* a binary semaphore released by another thread than the one that took it */
+extern char sim_owner_violation_where[256];
+extern bool (*sim_preempt_hook)(void);               /* optional: deschedule a fiber right after a wait / post */
 extern int  sim_live_semaphores, sim_live_sockets, sim_live_threads, sim_live_handlesets;
 
 /* fibers */
@@ -60,6 +63,7 @@ int  sim_task_count(void);
 bool sim_task_done(int idx);
 bool sim_task_runnable(int idx);
 void sim_task_step(int idx);                          /* run task idx until it yields */
+extern bool sim_main_sleep_runs_tasks;               /* Thread_sleep in the application context steps every runnable thread */
 extern int sim_last_task;                            /* slot of the most recently created thread */
 extern int sim_deadlock;                              /* set when a join cannot make progress */
 extern char sim_deadlock_info[256];
